@@ -297,17 +297,354 @@ func installHook(kind string) {
 	}
 }
 
-// judgePrinter: the properties' own predicates on one real result (model-free).
+// hotDicts give payload texts that are everything the plain dictionary is not:
+// markers, the redacted marker, line feeds in every position, partial UTF-8.
+var hotTexts = []string{"\u2039x", "a\nb", "\u203a", "\n", "x\u2039y\u203az", "q\xe2\x80", "\u2039\u00d7\u203a", "\n\nz", "w\n", "\xe2", "\x80\xb9", " "}
+
+func hotDict(k int) lib.Dict {
+	return func(id int) string { return hotTexts[(id*7+k)%len(hotTexts)] }
+}
+
+// secret dictionaries for C02: same emptiness, same line-feed skeleton, disjoint sentinel alphabets
+func secretDict(which int) lib.Dict {
+	return func(id int) string {
+		nl := ""
+		if id%3 == 0 {
+			nl = "\n"
+		}
+		if which == 0 {
+			return fmt.Sprintf("SECa%dxx%sAA", id, nl)
+		}
+		return fmt.Sprintf("SEKRb%dy%sBBB", id, nl)
+	}
+}
+
+// judgePrinter: the properties' own predicates on real results of one case.
 func judgePrinter(rep *lib.Report, prop string, c *lib.Ctx, ln *printerLine, res *realResult, raw []byte) {
 	is := func(p string) bool { return prop == p || prop == "ALL" }
 	kase := json.RawMessage(raw)
-	if (is("C01") || is("C03")) && !lib.WellFormed(res.Out) {
-		rep.Violate("printer:illformed", fmt.Sprintf("%s: output %q", caseString(c, ln.C), res.Out), kase)
+	desc := func() string { return caseString(c, ln.C) }
+	if is("C01") && !lib.WellFormed(res.Out) {
+		rep.Violate("printer:illformed", fmt.Sprintf("%s: output %q", desc(), res.Out), kase)
 	}
 	if is("C03") && lib.WellFormed(res.Out) && !lib.LineSafe(res.Out) {
-		rep.Violate("printer:linespan", fmt.Sprintf("%s: output %q", caseString(c, ln.C), res.Out), kase)
+		rep.Violate("printer:linespan", fmt.Sprintf("%s: output %q", desc(), res.Out), kase)
+	}
+	if is("C01") || is("C03") || is("C11") {
+		// the same case with hot payloads: markers, line feeds, partial UTF-8 in every payload
+		for k := 0; k < 3; k++ {
+			hc := lib.NewCtx(hotDict(k + int(lib.Seed())))
+			hr := runCase(hc, ln.C)
+			hc.Release()
+			rep.AddEval(1)
+			if hr.Panicked != ln.Exc {
+				if is("C11") {
+					rep.Violate("printer:panic", fmt.Sprintf("%s with hot payloads: panicked=%v (%s)", desc(), hr.Panicked, hr.PanicVal), kase)
+				}
+				continue
+			}
+			if hr.Panicked {
+				continue
+			}
+			if (is("C01") || is("C11")) && !lib.WellFormed(hr.Out) {
+				rep.Violate("printer:illformed", fmt.Sprintf("%s with hot payloads: output %q", desc(), hr.Out), kase)
+			}
+			if is("C03") && lib.WellFormed(hr.Out) {
+				red := func(b []byte) []byte { return []byte(redact.RedactableBytes(b).Redact()) }
+				str := func(b []byte) []byte { return redact.RedactableBytes(b).StripMarkers() }
+				if !lib.LineSafe(hr.Out) {
+					rep.Violate("printer:linespan", fmt.Sprintf("%s with hot payloads: output %q", desc(), hr.Out), kase)
+				} else if !lib.PerLineOK(hr.Out, red, str) {
+					rep.Violate("printer:perline", fmt.Sprintf("%s with hot payloads: output %q", desc(), hr.Out), kase)
+				}
+			}
+		}
+	}
+	if is("C02") {
+		judgeC02(rep, c, ln, kase)
+	}
+	if is("C05") && !lib.HasKind(ln.C.Ts, "unsafe") && !hasScripts(ln.C.Ts) {
+		exp, hot := c.Expect(ln.Out, ln.Rt)
+		_ = exp
+		if !hot {
+			want := c.ExpectVisible(ln.Out, ln.Rt, ln.C.Ts)
+			if got := lib.DeleteEnvelopes(res.Out); !bytes.Equal(got, want) {
+				rep.Violate("printer:visible", fmt.Sprintf("%s: with envelopes deleted the output is %q, the declared-safe text is %q (output %q)", desc(), got, want, res.Out), kase)
+			}
+		}
+	}
+	if is("C06") {
+		judgeC06(rep, c, ln, res, kase)
+	}
+	if is("C11") {
+		judgeC11(rep, c, ln, res, kase)
 	}
 }
+
+func hasScripts(ts []*lib.Term) bool {
+	for _, t := range ts {
+		if len(t.Scr) > 0 || len(t.FScr) > 0 || hasScripts(t.Xs) {
+			return true
+		}
+	}
+	return false
+}
+
+// judgeC02: two instantiations of the secret payloads (public ones shared); the redacted
+// results must be identical and hold no sentinel of a secret.
+func judgeC02(rep *lib.Report, c *lib.Ctx, ln *printerLine, kase json.RawMessage) {
+	if lib.HasKind(ln.C.Ts, "ptrto") {
+		return // pointer values are public but differ from one allocation to the next
+	}
+	pub := lib.Publicity(ln.C.Ts)
+	var outs [2][]byte
+	base := 0
+	for w := 0; w < 2; w++ {
+		sec := secretDict(w)
+		d := func(id int) string {
+			if pub[id] {
+				return lib.PlainDict(id)
+			}
+			return sec(id)
+		}
+		var sc *lib.Ctx
+		if w == 0 {
+			sc = lib.NewCtx(d)
+			base = sc.HandleBase
+		} else {
+			sc = lib.NewCtxLike(d, base)
+		}
+		sc.SecretInts = w + 1
+		sc.Public = pub
+		r := runCase(sc, ln.C)
+		sc.Release()
+		rep.AddEval(1)
+		if r.Panicked {
+			return
+		}
+		outs[w] = []byte(redact.RedactableBytes(r.Out).Redact())
+	}
+	if !bytes.Equal(outs[0], outs[1]) {
+		rep.Violate("printer:interference", fmt.Sprintf("%s: redacted outputs differ: %q vs %q", caseString(c, ln.C), outs[0], outs[1]), kase)
+	}
+	for w := 0; w < 2; w++ {
+		for _, s := range []string{"SECa", "SEKRb", "7771", "7772", "1e5b", "1e5c", "1E5B", "1E5C"} {
+			if bytes.Contains(outs[w], []byte(s)) {
+				rep.Violate("printer:leak", fmt.Sprintf("%s: sentinel %q of an unsafe value survives redaction: %q", caseString(c, ln.C), s, outs[w]), kase)
+			}
+		}
+	}
+}
+
+// secretsVisible: under the plain dictionary, the text of a secret payload outside envelopes.
+func secretsVisible(ts []*lib.Term, out []byte) string {
+	vis := lib.DeleteEnvelopes(out)
+	for id, public := range lib.Publicity(ts) {
+		if !public && bytes.Contains(vis, []byte(lib.PlainDict(id))) {
+			return lib.PlainDict(id)
+		}
+	}
+	return ""
+}
+
+// judgeC06 (slice wrap: format "a <directive> a" or Sprint, one wrapped operand)
+func judgeC06(rep *lib.Report, c *lib.Ctx, ln *printerLine, res *realResult, kase json.RawMessage) {
+	if len(ln.C.Ts) != 1 || (ln.C.Ts[0].K != "safe" && ln.C.Ts[0].K != "unsafe") {
+		return
+	}
+	top := ln.C.Ts[0]
+	desc := caseString(c, ln.C)
+	lits := []byte("a  a")
+	if ln.C.E == "Sprint" {
+		lits = nil
+	} else if f := c.Subst(ln.C.F); !bytes.HasPrefix(f, []byte("a %")) || !bytes.HasSuffix(f, []byte(" a")) || bytes.Count(f, []byte("%")) != 1 {
+		return
+	}
+	// innermost non-wrapper value and whether it is fmt-compatible / free of own classification
+	x := top
+	for x.K == "safe" || x.K == "unsafe" {
+		x = x.Xs[0]
+	}
+	if top.K == "unsafe" {
+		if got := lib.DeleteEnvelopes(res.Out); !lib.WellFormed(res.Out) || !bytes.Equal(got, lits) {
+			rep.Violate("printer:unsafe-not-enveloped", fmt.Sprintf("%s: output %q shows %q outside envelopes", desc, res.Out, got), kase)
+		}
+	}
+	if top.K == "safe" && !ownClassification(top.Xs[0]) {
+		if lib.HasMarker(res.Out) {
+			rep.Violate("printer:safe-enveloped", fmt.Sprintf("%s: output %q has an envelope", desc, res.Out), kase)
+		}
+	}
+	// the characters are those fmt prints for x (fmt-compatible x only; the operand is used as built)
+	verb := 0
+	if len(ln.C.F) >= 3 {
+		verb = ln.C.F[len(ln.C.F)-3]
+	}
+	if fmtCompatible(top) && ln.C.E == "Sprintf" && verb != 'T' && verb != 'p' && (top.K == "unsafe" || !ownClassification(top.Xs[0])) {
+		std := fmt.Sprintf(string(c.Subst(ln.C.F)), stripWrappers(c, top))
+		if got := lib.Strip(res.Out); !bytes.Equal(got, lib.EscapeAll([]byte(std))) {
+			rep.Violate("printer:wrapper-chars", fmt.Sprintf("%s: characters %q, fmt prints %q", desc, got, std), kase)
+		}
+	}
+}
+
+// stripWrappers returns the concrete innermost value of a wrapper chain.
+func stripWrappers(c *lib.Ctx, t *lib.Term) interface{} {
+	for t.K == "safe" || t.K == "unsafe" {
+		t = t.Xs[0]
+	}
+	return c.Value(t)
+}
+
+// ownClassification: the value (or a part of it) declares a class itself.
+func ownClassification(t *lib.Term) bool {
+	switch t.K {
+	case "safe", "unsafe", "rstring", "rbytes":
+		return true
+	case "obj":
+		for _, cp := range t.Caps {
+			if cp == "SF" || cp == "SM" || cp == "SV" || cp == "REG" || cp == "FM" {
+				return true
+			}
+		}
+	}
+	for _, x := range t.Xs {
+		if ownClassification(x) {
+			return true
+		}
+	}
+	return false
+}
+
+// fmtCompatible: a wrapper chain around a value without redact-specific rendering anywhere.
+func fmtCompatible(t *lib.Term) bool {
+	for t.K == "safe" || t.K == "unsafe" {
+		t = t.Xs[0]
+	}
+	var plain func(t *lib.Term) bool
+	plain = func(t *lib.Term) bool {
+		switch t.K {
+		case "safe", "unsafe", "rstring", "rbytes":
+			return false
+		case "obj":
+			for _, cp := range t.Caps {
+				if cp == "SF" || cp == "SM" || cp == "FM" || cp == "NILP" {
+					return false
+				}
+			}
+		}
+		for _, x := range t.Xs {
+			if !plain(x) {
+				return false
+			}
+		}
+		return true
+	}
+	return plain(t)
+}
+
+// judgeC11: user-method panics are contained and reported in place.
+func judgeC11(rep *lib.Report, c *lib.Ctx, ln *printerLine, res *realResult, kase json.RawMessage) {
+	desc := caseString(c, ln.C)
+	if res.Panicked {
+		// allowed only when the panic payload itself panics while being printed (as in fmt)
+		if !payloadPanics(ln.C.Ts) {
+			rep.Violate("printer:panic", fmt.Sprintf("%s: panic %s reached the caller", desc, res.PanicVal), kase)
+		}
+		return
+	}
+	if !lib.WellFormed(res.Out) {
+		rep.Violate("printer:illformed", fmt.Sprintf("%s: output %q", desc, res.Out), kase)
+		return
+	}
+	s := lib.Strip(res.Out)
+	if ln.C.E == "Sprintf" && bytes.HasPrefix(c.Subst(ln.C.F), []byte("a ")) && bytes.HasSuffix(c.Subst(ln.C.F), []byte(" a")) {
+		if !bytes.HasPrefix(s, []byte("a ")) || !bytes.HasSuffix(s, []byte(" a")) {
+			rep.Violate("printer:panic-lost-text", fmt.Sprintf("%s: text around the operand lost: %q", desc, res.Out), kase)
+		}
+	}
+	if methodPanics(ln.C.Ts) && !nilReceiverOnly(ln.C.Ts) && reachesMethods(ln) && !bytes.Contains(s, []byte("(PANIC=")) {
+		rep.Violate("printer:panic-unreported", fmt.Sprintf("%s: no PANIC= report in %q", desc, res.Out), kase)
+	}
+	// the payload is unsafe: no secret payload text outside envelopes
+	if leaked := secretsVisible(ln.C.Ts, res.Out); leaked != "" {
+		rep.Violate("printer:panic-payload-visible", fmt.Sprintf("%s: secret payload %q is outside envelopes in %q", desc, leaked, res.Out), kase)
+	}
+}
+
+func walkTerms(ts []*lib.Term, fn func(t *lib.Term)) {
+	for _, t := range ts {
+		if t == nil {
+			continue
+		}
+		fn(t)
+		walkTerms(t.Xs, fn)
+		walkTerms(t.Pan, fn)
+		for _, op := range t.Scr {
+			walkTerms(op.Ts, fn)
+		}
+		for _, op := range t.FScr {
+			walkTerms(op.Ts, fn)
+		}
+	}
+}
+
+func methodPanics(ts []*lib.Term) bool {
+	found := false
+	walkTerms(ts, func(t *lib.Term) {
+		if len(t.Pan) > 0 {
+			found = true
+		}
+		for _, op := range append(append([]lib.SOp{}, t.Scr...), t.FScr...) {
+			if op.O == "Panic" {
+				found = true
+			}
+		}
+	})
+	return found
+}
+
+// payloadPanics: some panic payload is itself a value whose printing panics.
+func payloadPanics(ts []*lib.Term) bool {
+	found := false
+	walkTerms(ts, func(t *lib.Term) {
+		check := func(p *lib.Term) {
+			if p.K == "obj" && (len(p.Pan) > 0) {
+				found = true
+			}
+			for _, op := range p.Scr {
+				if op.O == "Panic" {
+					found = true
+				}
+			}
+		}
+		for _, p := range t.Pan {
+			check(p)
+		}
+		for _, op := range append(append([]lib.SOp{}, t.Scr...), t.FScr...) {
+			if op.O == "Panic" {
+				for _, p := range op.Ts {
+					check(p)
+				}
+			}
+		}
+	})
+	return found
+}
+
+func nilReceiverOnly(ts []*lib.Term) bool {
+	only := true
+	walkTerms(ts, func(t *lib.Term) {
+		if t.K == "obj" && (len(t.Pan) > 0 || len(t.Scr) > 0 || len(t.FScr) > 0) {
+			only = false
+		}
+	})
+	return only
+}
+
+// reachesMethods: the model recorded at least one user-method call for the case
+// (a panicking method behind an unexported field or under a non-dispatching verb is never invoked).
+func reachesMethods(ln *printerLine) bool { return len(ln.Calls) > 0 }
 
 func init() {
 	register("printer-replay", "replay MCPrinter cases on the real printer", printerReplay)
